@@ -108,6 +108,13 @@ TEXT = {
             "note": _N1 + " MemSm snapshots; the File engine's in-memory snapshot metadata is not exercised here."},
     "C35": {"level": _E1 + "Multi-key reads with duplicate and never-written keys through EmbeddedClient and raw read commands: one "
                            "result per key, duplicates agree, missing keys absent.", "note": _N1 + " The gRPC client library's realignment (d-engine-client) is not executed."},
+    "C36": {"level": "Seeded exploration: a generated sequence of AppendEntries requests is delivered to two identical real follower nodes "
+                     "(full node wiring, real Raft loop), once in bursts so that Raft::merge_append_entries sees several queued requests, "
+                     "once one at a time with quiescence in between. Compared: final log (index, term, payload), final commit index, "
+                     "and per sender the kind of acknowledgement (success / conflict / higher term); a merged success must cover the "
+                     "sender's own request. The burst partition, max_merge_entries and max_batch_size are the explored dimensions.",
+            "note": "One response is fanned out to all merged senders by design, so exact equality of last_match and of the response's term "
+                    "field is not demanded (DESIGN.md C36). Trusted base as for the cluster simulator."},
     "C37": {"level": _E1 + "Every command in the apply ledger equals (kind, key, value, expected, ttl) of the submitted operation carrying "
                            "that unique value.", "note": _N1},
 }
@@ -116,6 +123,5 @@ NOT_CLAIMED = {
     "C17": "not claimed yet: the snapshot-stream mutation harness (E3) is not built",
     "C24": "not claimed yet: the watch harness (E3) is not built",
     "C25": "not claimed yet: the scan/apply interleaving harness is not built",
-    "C36": "not claimed yet: merge-equivalence scenario not built",
     "C34": "not applicable: RaftConfig::validate() is a pure function of numbers - no schedule, clock, fault or interleaving for a simulator to decide (DESIGN.md §12)",
 }
